@@ -147,6 +147,7 @@ def check_rle(rep, tier, rng, drv, run):
 
 
 def check_bitpack(rep, tier, rng, drv, run):
+    import rle_ref
     lines = []
     for w in range(0, 33):
         top = (1 << w) - 1
@@ -165,7 +166,16 @@ def check_bitpack(rep, tier, rng, drv, run):
         for _ in range(20 if tier == "quick" else 300):
             lines.append("unpack8 %d %s" % (w, vlib.hexs(bytes(rng.getrandbits(8) for _ in range(w)))))
         for cnt in (0, 1, 7, 8, 9, 15, 16, 17, 31):
-            lines.append("bitpack %d %s" % (w, " ".join(str(rng.randint(0, top)) for _ in range(cnt))))
+            vals = [rng.randint(0, top) for _ in range(cnt)]
+            lines.append("bitpack %d %s" % (w, " ".join(map(str, vals))))
+            # raw bit packing of any count: pack with the reference, unpack with carquet from an
+            # exact-size buffer (and one byte short: must not be read past)
+            packed = b"".join(rle_ref.pack_group(w, (vals[i:i + 8] + [0] * 8)[:8]) for i in range(0, cnt, 8))
+            need = (cnt // 8) * w + ((cnt % 8) * w + 7) // 8
+            lines.append("bitunpack %d %d %s" % (w, cnt, vlib.hexs(packed[:need])))
+            if need:
+                lines.append("bitunpack %d %d %s" % (w, cnt, vlib.hexs(packed[:need - 1])))
+    import rle_ref
     impl, p1 = run_sharded(drv, lines)
     model, p2 = run_sharded(run, lines)
     for pr in p1:
@@ -191,6 +201,19 @@ def check_bitpack(rep, tier, rng, drv, run):
                 rep.violation("carquet_bitunpack8_32 differs from the Parquet bit-packing layout: %s want %s" % (a, want), {"case": li, "impl": a})
             if b != want:
                 rep.tie_broken("BitpackModel.unpack8 differs: %s" % b, li)
+        elif t[0] == "bitunpack":
+            cnt = int(t[2]); data = bytes.fromhex(t[3]) if t[3] != "-" else b""
+            need = (cnt // 8) * w + ((cnt % 8) * w + 7) // 8
+            if len(data) >= need:
+                vals = []
+                for g in range(0, cnt, 8):
+                    grp = (data[(g // 8) * w:(g // 8) * w + w] + bytes(w))[:w]
+                    vals += rle_ref.unpack_group(w, grp)
+                want = "OK %s %d" % (",".join(map(str, vals[:cnt])) if cnt else "-", need if w else 0)
+                if a != want:
+                    rep.violation("carquet_bitunpack_32 differs from the Parquet bit-packing layout / consumed count: %s want %s" % (a[:100], want[:100]), {"case": li, "impl": a})
+            if a != b:
+                rep.tie_broken("BitpackModel.bitunpack_32 differs from carquet_bitunpack_32: model %s impl %s" % (b[:100], a[:100]), li)
         else:
             if a != b:
                 rep.tie_broken("BitpackModel.bitpack_32 differs from carquet_bitpack_32: model %s impl %s" % (b, a), li)
@@ -229,6 +252,9 @@ def run(tier):
 
 def replay(path):
     j = json.loads(Path(path).read_text())
+    if j.get("replay", {}).get("engine") == "enc2":
+        import c11_enc2
+        return c11_enc2.replay_enc2(j["replay"])
     case = j.get("replay", {}).get("case")
     if not case:
         print(json.dumps(j, indent=1)[:3000])
